@@ -6,13 +6,13 @@ def chk(pid, text, note, technique, ref):
     CHECKS[pid] = dict(text=text, note=note, technique=technique, ref=ref)
 
 chk("C01",
-    "Bounded-exhaustive exploration of the real formatter+parser: every value of a finite universe (all 30 constructors, arity<=3 with duplicates and all insertion orders, one-hole nesting, towers, sentence/task item product with extreme stamps and floats) x 3 formats is formatted (3 routes) and re-parsed, and compared through an independent canonical form; unordered compounds additionally under every distinguishable hash-iteration order of their sets.",
+    "Bounded-exhaustive exploration of the real formatter+parser: every value of a finite universe (all 30 constructors, arity<=3 with duplicates and all insertion orders, one-hole nesting, towers 2..40 deep with the nested child in every position, wide terms, reducible shapes, hash twins, numeric families with every digit count and the neighbours of powers of two and ten, names with one character of every identifier class in every position and truncation aliases of keywords, sentence/task item product with extreme stamps and floats) x 3 formats is formatted (3 routes) and re-parsed, and compared through an independent canonical form; unordered compounds additionally under every distinguishable hash-iteration order of their sets.",
     "Names limited to the per-format alphabet, nesting<=3 except towers; canonical form and recipes are harness code; hash order owned through the verif_hooks SeededState hook (only the key source changes).",
     "bounded exhaustive enumeration of values x hash-order environments against the real code, reference canonical form as oracle",
     "5/C01")
 
 chk("C02",
-    "Bounded-exhaustive exploration of the real lexical formatter+parser: every lexical value of a finite universe built from each format's own vocabulary (any connecter/arity combination incl. zero components, sets, 13 copulas, one-hole nesting, sentence/task item product with 0..4 truth/budget entries and every stamp form) x 3 formats, format then parse, structural equality.",
+    "Bounded-exhaustive exploration of the real lexical formatter+parser: every lexical value of a finite universe built from each format's own vocabulary (any connecter/arity combination incl. zero components, sets, 13 copulas, one-hole nesting, towers to depth 64 in every child position, reducible shapes, digit strings of every length 1..25 in every numeric slot, sentence/task item product with 0..9 truth/budget entries and every stamp form) x 3 formats, format then parse (3 routes), structural equality.",
     "Derived == on the lexical tree is trusted; names from the per-format alphabet; depth<=2 (3 in thorough).",
     "bounded exhaustive enumeration of lexical values against the real formatter and parser",
     "5/C02")
@@ -22,28 +22,28 @@ chk("C03",
     "bounded exhaustive enumeration of surface strings through both real pipelines, differential oracle + reference desugaring",
     "5/C03")
 chk("C10",
-    "All operand pairs over atoms and constructor representatives x all 13 copulas, image component lists of length 1..4 with 0/1/2 placeholders and placeholder spellings, interval spellings incl. leading zeros / usize::MAX / overflow, x 3 formats x 2 pipelines of the real code, compared with expected values written independently in raw variants.",
+    "All operand pairs over atoms and constructor representatives x all 13 copulas, the four derived constructors called directly on every operand pair, image component lists of length 1..4 with 0/1/2 placeholders and placeholder spellings incl. tails ending in copula prefixes, interval spellings incl. leading zeros / usize::MAX / overflow, x 3 formats x 2 pipelines of the real code, compared with expected values written independently in raw variants.",
     "Expected meanings are taken from the property statement; operands limited to atoms + one representative per constructor.",
     "bounded exhaustive enumeration of sugared inputs against a reference meaning",
     "5/C10")
 chk("C14",
-    "Every term of the C01 term universe (every constructor, image index 0..=n, duplicates, nesting) is built through the public constructors and its consuming extraction, both borrowing accessors, category and the 8 capacity predicates are compared with the recipe; unordered terms under every distinguishable hash-iteration order; every lexical term of the C02 universe: extraction vs stored components, category vs category of its fold.",
+    "Every term of the C01 term universe (every constructor, image index 0..=n, duplicates, nesting) is built through the public constructors and its consuming extraction, both borrowing accessors, category and the 8 capacity predicates are compared with the recipe; unordered terms under every distinguishable hash-iteration order; every lexical term of the C02 universe and every hostile lexical term under all three folders: extraction vs stored components, category vs category of its fold.",
     "Recipe -> expectation mapping is harness code; hash order owned through the verif_hooks hook.",
     "bounded exhaustive enumeration of terms x hash-order environments, reference model of components/category/capacity",
     "5/C14")
 chk("C15",
-    "Every sentence/task of the item product (tops x 4 punctuations x 9 stamps x 8 truths x 7 budget shapes) and every top term, in the enum and the lexical model, x 3 formats: classification by both real parsers, cast laws, wrap/unwrap matrix, predicates, task-compatible conversion, value-level cast, printed form of cast_to_task(s).",
+    "Every sentence/task of the item product (tops x 4 punctuations x 9 stamps x 8 truths x 7 budget shapes) and every top term, in the enum and the lexical model, x 3 formats: classification by both real parsers, cast laws, wrap/unwrap matrix (inherent accessors and std TryFrom), predicates, task-compatible conversion, value-level cast, printed form of cast_to_task(s).",
     "Enum equality through the canonical form; lexical equality through derived ==.",
     "bounded exhaustive enumeration of values against the conversion laws",
     "5/C15")
 
 chk("C04",
-    "Every token string of length<=3 (4 thorough) over each format's full token alphabet, every string at one deviation from ~150 well-formed token lists (with/without spaces; thorough adds truncation o edit), 512-char repetition and 64-deep bracket-tower families, through all 8 public enum parsing entry points x 3 formats on 2 MiB stacks with catch_unwind and a non-termination watchdog; plus the complete (len,index) grid of ParseError::new + Display.",
+    "Every token string of length<=3 (4 thorough) over each format's full token alphabet, every string at one deviation from ~150 well-formed token lists (with/without spaces; thorough adds truncation o edit), 512-char repetition and 64-deep bracket-tower families (child first / later, bare and inside hashing containers), 58 number spellings at every numeric boundary in 11 slots, and EVERY code point of a stated range (quick: BMP + emoji + tag blocks, 83 k; thorough: all 1 112 064 scalar values) in 7 (11) position templates, through all 9 public enum parsing entry points (batch entry points fed by unsized iterators) x 3 formats on 2 MiB stacks with catch_unwind and a non-termination watchdog on thread CPU time; plus the complete (len,index) grid of ParseError::new + Display.",
     "Totality is decided for these string families and for every cursor position, not for every string of <=512 chars; an abort (stack overflow) would surface as machinery failure, not as a pass.",
     "bounded exhaustive enumeration of token strings and deviation-bounded mutants against the real parser entry points",
     "5/C04")
 chk("C05",
-    "The same string spaces as C04 through lexical parse and parse_term x 3 formats; every lexical value of a hostile universe (every keyword of every category of every format, empty and garbage strings in every field, 0..3/4 components, 14 number strings in lists of 0..4, 30 stamp strings) folded with each of the 3 enum formats, under catch_unwind and a watchdog.",
+    "The same string spaces as C04 through lexical parse and parse_term x 3 formats; every lexical value of a hostile universe (every keyword of every category of every format, keyword+name strings, unknown strings of 28 lengths up to 101 in 1..4-byte characters, empty and garbage strings in every field, 0..3/4 components, 14 number strings in lists of 0..4, ~300 stamp strings; plus the regular lexical universes of all formats incl. 64-deep towers) folded with each of the 3 enum formats, under catch_unwind and a watchdog.",
     "As C04; hostile universe depth<=2.",
     "bounded exhaustive enumeration of strings and hostile lexical values against the real lexical parser and fold",
     "5/C05")
@@ -54,7 +54,7 @@ chk("C12",
     "5/C12")
 
 chk("C06",
-    "A recipe family (7 unordered constructors over atoms and nested items in every insertion sequence incl. duplicates, 3 symmetric statements over all operand pairs, nested symmetric statements, ordered/image/asymmetric controls, same name under different atom kinds, parsed texts) is built on the real code under EVERY distinguishable combination of hash-iteration orders of its sets (stateless DFS over the environment's key choices through the SeededState hook); then ALL pairs of builds are compared: (a==b), (b==a) must equal (canon(a)=canon(b)); reflexivity; derived == of Sentence/Task/Narsese wrappers.",
+    "A recipe family (7 unordered constructors over atoms and nested items in every insertion sequence incl. duplicates, 3 symmetric statements over all operand pairs, nested symmetric statements, ordered/image/asymmetric controls, same name under different atom kinds, hash twins in every ordered pair, word pairs whose hashes collide in 32 / 16 bits, sets of up to 130 elements, differently grown tables, parsed texts, and every variable-arity constructor with 1..17 components through 8 construction routes) is built on the real code under EVERY distinguishable combination of hash-iteration orders of its sets (stateless DFS over the environment's key choices through the SeededState hook); then ALL pairs of builds are compared: (a==b), (b==a) must equal (canon(a)=canon(b)); reflexivity; derived == of Sentence/Task/Narsese wrappers.",
     "Hook replaces only the source of the SipHash key of TermSetType; sets of <=3 elements nested <=2; every k! order realised (else exhaustive=false is reported).",
     "exhaustive exploration of hash-order environments (controlled nondeterminism) x recipes on the real code, all-pairs comparison against a canonical-form oracle",
     "5/C06")
@@ -64,32 +64,32 @@ chk("C07",
     "exhaustive exploration of hash-order environments x recipes, all canon-equal pairs",
     "5/C07")
 chk("C08",
-    "Explicit-state search (stateright BFS, run twice, counts compared) over the real reused ParseState: state = every field of the reused ParseState except the constant format (mid_result, character buffer, recorded length, cursor), transition = one real parse_multi loop body (hook MultiParser::step) over a 26-input alphabet per format (complete/partial/failing inputs), to a fixpoint; every transition compared with a fresh parse; every explored history replayed through the public parse_multi (traces_validated_against_impl); hook-free sweep of all sequences of length<=2 (3); parse_chars vs parse; lexical parse sequences on the shared static formats.",
-    "States are merged on all fields of the real ParseState (hook buffer_view + residue), so no assumption about reset_to is needed; alphabet of 31 (43 thorough) inputs per format.",
+    "Explicit-state search (stateright BFS, run twice, counts compared) over the real reused ParseState: state = every field of the reused ParseState except the constant format (mid_result, character buffer, recorded length, cursor), transition = one real parse_multi loop body (hook MultiParser::step) over a 35-input alphabet per format (complete/partial/failing inputs), to a fixpoint; every transition compared with a fresh parse; every explored history replayed through the public parse_multi (traces_validated_against_impl); hook-free sweep of all sequences of length<=2 (4), each through three kinds of input iterator; soak sweep x^k y and (x y)^k for k up to 300 over the alphabet plus 64-deep towers; 14 special code points at both ends of every input on all three routes; parse_chars vs parse vs parse_multi on every formatted value; lexical parse sequences on the shared static formats.",
+    "States are merged on all fields of the real ParseState (hook buffer_view + residue), so no assumption about reset_to is needed; alphabet of 35 (47 thorough) inputs per format.",
     "explicit-state model checking (stateright BFS to fixpoint) of the real parser object + replay of all explored traces against the public API",
     "5/C08")
 chk("C09",
-    "For every value of a term universe and a sentence/task cover, the reference token list under every spacing at <=1 deviation from 'no spaces' and from 'spaces everywhere' (thorough: <=2 spaces anywhere), through the enum parser and lexical parse+fold x 3 formats; tab/newline/U+3000/U+00A0 for the lexical pipeline and parse_chars(strip_whitespace()); literal macro invocations.",
+    "For every value of a term universe and a sentence/task cover, the reference token list under every spacing at <=1 deviation from 'no spaces' and from 'spaces everywhere' (thorough: <=2 spaces anywhere), through the enum parser and lexical parse+fold x 3 formats; tab/newline/U+3000/U+00A0 (thorough: all 25 White_Space characters) for the lexical pipeline and parse_chars(strip_whitespace()); every public route into the lexical parser (methods and free functions of parse and parse_term) on every spaced string; literal invocations of all eight macros incl. literals with tab / newline / CR LF / U+3000 / U+00A0.",
     "Token boundaries are those of the harness' reference formatter.",
     "deviation-bounded exhaustive enumeration of spacings of well-formed token lists against both real pipelines",
     "5/C09")
 chk("C11",
-    "Every ASCII string printed by the enum formatter (C01 universe) and the lexical formatter (C02 universe, >=1 component) is interpreted with the PEG grammar read from README.md (own pest-semantics interpreter), the kind and the derived tree are compared with the ASCII lexical parser's result; FORMAT_ASCII (enum and lexical) is compared with the OpenNARS lexicon entry by entry.",
+    "Every ASCII string printed by the enum formatter (C01 universe) and the lexical formatter (C02 universe, >=1 component) is interpreted with the PEG grammar read from README.md (own pest-semantics interpreter), after all formatting routes were required to print the same text; the kind and the derived tree are compared with the ASCII lexical parser's result; FORMAT_ASCII (enum and lexical) is compared with the OpenNARS lexicon entry by entry.",
     "Grammar read as task~EOI | sentence~EOI | term~EOI; Unicode classes from the regex crate; lexicon table is a literal in the harness.",
     "bounded exhaustive enumeration of formatter outputs against an independent reference grammar interpreter",
     "5/C11")
 chk("C13",
-    "All tuples of arity 0..4 (5 thorough) over a 21-value float alphabet (infinities, NaNs, -0.0, subnormals, 1-ulp, 1+ulp, ...) through the fallible and panicking constructors of Truth and Budget and all accessors; is_valid/try_validate/validate/root/zero/one on every float.",
+    "All tuples of arity 0..4 (5 thorough) over a 21-value float alphabet (infinities, NaNs, -0.0, subnormals, 1-ulp, 1+ulp, ...) through the fallible and panicking constructors of Truth and Budget (components supplied through Vec, filter, from_fn and copied iterators) and every getter incl. the EvidentValue trait on Truth and on (V, V); is_valid/try_validate/validate/root/zero/one on every float.",
     "f64 only (the only EvidentNumber instance); oracle 0<=x<=1.",
     "bounded exhaustive enumeration of float tuples against a reference predicate",
     "5/C13")
 chk("C16",
-    "Every value of the C01 universe plus stand-alone items is rendered to Typst on the real code: no panic, trimmed, no doubled whitespace; one table rendering -> canonical class over the whole universe detects collisions; unordered families are rendered under every distinguishable hash-iteration order and canonically equal recipes must have equal rendering sets.",
+    "Every value of the C01 universe (incl. digit-like names, the name-class family, numeric families) plus stand-alone items and a float-neighbour family is rendered to Typst on the real code: no panic, trimmed, no doubled whitespace; one table rendering -> canonical class over the whole universe detects collisions; unordered families are rendered under every distinguishable hash-iteration order and canonically equal recipes must have equal rendering sets.",
     "Injectivity is decided within the enumerated universe only.",
     "bounded exhaustive enumeration of values x hash-order environments, collision table against canonical forms",
     "5/C16")
 chk("C17",
-    "Explicit-state search (stateright BFS, run twice) from one term per constructor: every transition applies one real set_atom_name (16 strings) or push_components (7 lists) call to the real term (rebuilt by replaying the history) and the reference model to its canonical form; outcome, post-state, get_atom_name and unchanged-on-Err are checked on every transition; depth 3 (4 thorough).",
+    "Explicit-state search (stateright BFS, run twice) from one term per constructor: every transition applies one real set_atom_name (33 strings) or push_components (8 lists) call to the real term (rebuilt by replaying the history) and the reference model to its canonical form; outcome, post-state, get_atom_name and unchanged-on-Err are checked on every transition; depth 3 (5 thorough); one-step sweeps: every string of <=4 characters over 9 characters as a new name, old name x new name over 22 related names, pushes of a representative of every constructor and of the target itself through Vec / filter / from_fn, mirrored equal components built under 6 hash keys with the number of components actually held compared.",
     "Deduplication on the canonical form; reference model is 60 lines in the harness.",
     "explicit-state model checking (stateright BFS, depth-bounded) of the real term under its mutators against a reference model",
     "5/C17")
